@@ -522,6 +522,66 @@ def stage_openssh(ctx):
     ctx.cov['oracle']['openssh_sessions_ok'] = okc
 
 
+# ------------------------------------------------------------------------------------------------
+# stage: shapes of the shared secret K (mpint encoding in the exchange hash and in key derivation)
+
+def stage_kshape(ctx):
+    """Both ends of a unit test being asyncssh, a wrong mpint encoding of K (leading zero byte kept, sign byte
+    missing) cancels out; against an RFC peer it breaks roughly one handshake in 256/512.  MiniSSH as the server
+    sees the client's ephemeral value first and grinds its own until K has the wanted shape."""
+    from .. import minissh as M
+    from .. import minissh_selftest as T
+    kexs = [b'curve25519-sha256', b'ecdh-sha2-nistp256']
+    if ctx.tier == 'thorough':
+        kexs.append(b'diffie-hellman-group14-sha256')
+    hits = {}
+    fails = 0
+    for kex in kexs:
+        for shape in ('lead0', 'lead0hi', 'hi'):
+            if fails >= 3:
+                break
+            try:
+                mini = sshutil.run(T.mini_as_server(kex, b'aes128-ctr', b'hmac-sha2-256', sizes=[0, 1, 40], k_shape=shape),
+                                   timeout=300)
+            except Exception as e:
+                fails += 1
+                ctx.failing_input(
+                    f'independent RFC 4253 server cannot complete {kex.decode()} with an asyncssh client when the shared '
+                    f'secret K has shape {shape} (leading zero byte / sign byte of the mpint): {e!r}',
+                    {'kind': 'kshape', 'role': 'server', 'kex': kex.decode(), 'shape': shape, 'error': repr(e)})
+                continue
+            hit = bool(getattr(mini, 'k_shape_hit', False))
+            hits['%s.%s' % (kex.decode(), shape)] = hit
+            ctx.note_case(('kshape', kex, shape), nontrivial=hit)
+            ctx.count('kshape.server.%s' % ('hit' if hit else 'miss'))
+    # asyncssh as the server: its K cannot be steered, sample handshakes and count the shapes that occurred
+    n = 1200 if ctx.tier == 'thorough' else 150
+    seen = {'lead0': 0, 'lead0hi': 0, 'hi': 0, 'plain': 0}
+    for i in range(n):
+        if fails >= 3 or seen['lead0'] >= 2:
+            break
+        kex = kexs[i % 2]
+        try:
+            mini = sshutil.run(T.mini_as_client(kex, b'aes128-ctr', b'hmac-sha2-256', sizes=[1]), timeout=120)
+        except Exception as e:
+            fails += 1
+            ctx.failing_input(
+                f'independent RFC 4253 client cannot complete {kex.decode()} with an asyncssh server (handshake {i} of a '
+                f'repeated series; about 1 in 256 shared secrets starts with a zero byte): {e!r}',
+                {'kind': 'kshape', 'role': 'client', 'kex': kex.decode(), 'tries': 600, 'error': repr(e)})
+            continue
+        k = mini.shared_secret
+        sh = 'plain'
+        for name, pred in M.MiniSSH.K_SHAPES.items():
+            if pred(k, 32):
+                sh = name
+        seen[sh] += 1
+        ctx.note_case(('kshape-client', i), nontrivial=sh != 'plain')
+    ctx.cov['oracle']['kshape'] = {'forced_as_server': hits, 'sampled_as_client': seen}
+    if fails == 0 and not all(hits.values()):
+        ctx.broke('vacuity:kshape', f'a K shape could not be forced: {hits}')
+
+
 def run(ctx):
     ctx.cov['rule'] = ('(a) every packet asyncssh emits in sessions with the independent MiniSSH peer (both roles; every kex, '
                        'cipher and MAC MiniSSH implements; payload lengths 0..39, powers of two +-1 up to 32 KiB) judged by the '
@@ -529,14 +589,19 @@ def run(ctx):
                        'generated streams of well-formed, misaligned, short-padded, empty-payload and short-length packets '
                        'under generated chunkings; (c) key derivation with a toy hash injected into Kex.compute_key; (d) '
                        'echo sessions over 1-byte / random / coalescing wires with re-keying; (e) OpenSSH client against an '
-                       'asyncssh server. non-trivial = encrypted packet / more than one chunk / more than one digest block')
+                       'asyncssh server; (f) handshakes with an independent server that forces the shared secret K through its mpint shapes. non-trivial = encrypted packet / more than one chunk / more than one digest block')
     ctx.cov['trusted_base'] += [
         'MiniSSH (harness/minissh.py, primitives from PyCA cryptography / hashlib only) as the independent RFC 4253 peer; '
         'its own self test incl. a cross check against the OpenSSH client is run by `python -m harness.minissh_selftest`',
         'ciphers MiniSSH does not implement (arcfour*, blowfish, cast128, seed, aes192-cbc, umac, md5/96-bit MACs, zlib) '
         'are exercised asyncssh<->asyncssh only (C01), where a symmetric framing error would cancel',
-        'the receive loop is modelled in its clear-text phase (block size 8, no MAC); with encryption the same code path '
-        'runs with other block / MAC sizes and is covered by (a), (d), (e) as oracles',
+        'the receive loop is modelled byte for byte in its clear-text phase (Model/Packet.v) and, for every block / MAC size '
+        'and the four encryption shim classes over abstract primitives, in its encrypted phase (Model/PacketEnc.v, tied to '
+        'the real shim classes and send_packet/_recv_packet by running them with toy primitives); real ciphers and the '
+        'derivation of block / MAC sizes from the negotiated algorithms are covered by (a), (d), (e), (f) as oracles',
+        'K shapes: the mpint encoding of the shared secret is forced through its three cases (leading zero byte, leading '
+        'zero then high bit, high bit) by an independent server that chooses its ephemeral value after seeing the '
+        "client's; the asyncssh-as-server side can only be sampled (handshakes repeated, shapes hit are counted)",
     ]
     ctx.prove()
     stage_derive(ctx)
@@ -546,6 +611,7 @@ def run(ctx):
     except Exception as e:
         ctx.broke('stage:enc', repr(e))
     stage_minissh(ctx)
+    stage_kshape(ctx)
     stage_e2e(ctx)
     stage_openssh(ctx)
 
@@ -558,5 +624,20 @@ def replay(rp):
         b = sshutil.run(run_feed_case([b''.join(chunks)]))
         print(a, b)
         return 1 if a != b else 0
+    if str(rp.get('kind', '')).startswith('enc_'):
+        return c02_enc.replay_enc(rp)
+    if rp.get('kind') == 'kshape':
+        from .. import minissh_selftest as T
+        try:
+            if rp['role'] == 'server':
+                sshutil.run(T.mini_as_server(rp['kex'].encode(), b'aes128-ctr', b'hmac-sha2-256', sizes=[0, 1, 40],
+                                             k_shape=rp['shape']), timeout=300)
+            else:
+                for _ in range(rp.get('tries', 600)):
+                    sshutil.run(T.mini_as_client(rp['kex'].encode(), b'aes128-ctr', b'hmac-sha2-256', sizes=[1]), timeout=120)
+        except Exception as e:
+            print('still fails:', repr(e))
+            return 1
+        return 0
     print('run ./check C02')
     return 2
